@@ -20,6 +20,7 @@ EXPLANATION = (
     "never dropped from a fused disjunction; fused rules are matched as a disjunction (every leaf "
     "matcher consumes the whole pattern iterator; compile_regex anchors each pattern separately and "
     "hands all of them to the RegexSet)."
+    " Later additions: every RegexSet is built with size_limit = number of patterns x the single-regex limit and with the same case / unicode settings as the single-pattern builder (read from each build()'s own receiver chain); the redirect choice among equal priorities is a total order (C13.6), so it cannot depend on bucket order; explicit optimize() re-allocates rules, the regex cache is dropped in every build configuration (C06.3)."
 )
 NOT_DECIDED = "Engine-vs-engine verdict equality on concrete lists and requests."
 
